@@ -692,7 +692,7 @@ def enum_rule_family():
             for form in (None, (1, None), (0, 1), (2,), (1, 2), (1,)):
                 yield ("rep", x, form)
         # nested: the offending body one level further down
-        for x in bodies[1:12]:
+        for x in bodies[1:]:
             yield ("alt", [[("alt", [x, plain])] + L("c"), L("d")])          # {{x,b}c,d}
             yield ("alt", [L("c") + [("alt", [x, plain])], L("d")])          # {c{x,b},d}
             yield ("alt", [L("d"), [("alt", [plain, x])]])                   # {d,{b,x}}
@@ -707,7 +707,9 @@ def enum_rule_family():
     rights = [[], L("y"), [S] + L("y"), [S], [T_(True, False)], [T_(True, True)] + L("y"), [("zom",)],
               [("alt", [L("e"), [S] + L("f")])], L("y") + [EF],
               [("alt", [L("e"), [S] + L("f")])] + [EF] + L("g"),
-              [("alt", [[S] + L("c"), L("d")])] + [EF]]
+              [("alt", [[S] + L("c"), L("d")])] + [EF],
+              [("alt", [[("zom",)] + L("e"), L("f")])] + L("g")]
+    lefts.append(L("g") + [("alt", [L("e") + [("zom",)], L("f")])])
     seen = set()
     for b in branches():
         for l in lefts:
